@@ -452,7 +452,9 @@ def gen_ctl_case(rng):
             break
     st = Fraction(case['start'])
     t1 = st + Fraction(2 * rng.randint(0, 40) + 1, 16)
-    if rng.random() < 0.5:
+    if rng.random() < 0.5 and json.dumps(case['pat']).count('"mono"') <= 1:
+        # stop() releases every live Pmono through the player's cleanup SET: with two of them the order of the two
+        # releases at the same instant is not defined
         case['ctl'] = [['stop', str(t1)]]
     else:
         case['ctl'] = [['pause', str(t1)], ['resume', str(t1 + Fraction(rng.randint(1, 40), 16))]]
